@@ -90,11 +90,9 @@ class Module:
             self.tree = ast.parse(source, filename=relpath)
         except SyntaxError as exc:  # pragma: no cover
             raise AnalysisError(f"cannot parse {relpath}: {exc}") from exc
-        # docstrings carry no behaviour: drop them so that rules never depend on their presence
-        for n in ast.walk(self.tree):
-            if isinstance(n, (ast.FunctionDef, ast.AsyncFunctionDef, ast.ClassDef)) and len(n.body) > 1 \
-                    and isinstance(n.body[0], ast.Expr) and isinstance(n.body[0].value, ast.Constant) and isinstance(n.body[0].value.value, str):
-                n.body = n.body[1:]
+        # behaviour-preserving normal forms (docstrings, logging statements, else-after-return, temp-return, local annotations)
+        from .normalise import normalise_tree
+        self.normal_forms = normalise_tree(self.tree)
         from .localnames import normalise_module
         self.alpha_normalised = normalise_module(relpath, self.tree)
         self.is_pkg = relpath.endswith("__init__.py")
@@ -254,6 +252,8 @@ class Repo:
                 if parts[-1] == "__init__":
                     parts = parts[:-1]
                 self.modules[".".join(parts)] = Module(self, ".".join(parts), rel, src)
+        from .normalise import fold_constants
+        self.constants_folded = fold_constants(self)
 
     # ---------------------------------------------------------------- lookup
     def mod(self, short: str) -> Module:
@@ -470,10 +470,11 @@ class Repo:
 def norm(node: ast.AST) -> str:
     """whitespace-normal source text of a node (used for construct keys, never
     for deciding a rule)"""
+    from .canon import NormText
     try:
-        return " ".join(ast.unparse(node).split())
+        return NormText(" ".join(ast.unparse(node).split()))
     except Exception:  # pragma: no cover
-        return type(node).__name__
+        return NormText(type(node).__name__)
 
 
 def walk_no_nested(node: ast.AST) -> Iterator[ast.AST]:
